@@ -594,18 +594,30 @@ fn roundtrip_file(o: &Orig, scramble: Option<u64>) {
     let c = ctx();
     let site = "qgraph-file";
     let dir = crate::fw::scratch_dir("c13");
-    let file = format!("{dir}/{}-{}-{:?}.qgraph", o.family, o.index, std::thread::current().id());
+    // every other case writes over a file that is already there (one per worker thread, left in
+    // place between cases): what an earlier, possibly longer, document left behind must not matter
+    let reuse = if o.family == "large-sparse" { o.index % 2 == 0 } else { (o.index / 8) % 2 == 0 };
+    let file = if reuse {
+        ctx().count("file:written-over-an-existing-file", 1);
+        format!("{dir}/reused-{:?}.qgraph", std::thread::current().id())
+    } else {
+        format!("{dir}/{}-{}-{:?}.qgraph", o.family, o.index, std::thread::current().id())
+    };
     let path = std::path::Path::new(&file);
     let g: VecG = o.n.build(scramble);
     match guarded(|| quizx::json::write_graph(&g, path)) {
         Err(e) => {
             report_caught(o, site, "write", "vec-file", None, e);
-            let _ = std::fs::remove_file(path);
+            if !reuse {
+                let _ = std::fs::remove_file(path);
+            }
             return;
         }
         Ok(Err(e)) => {
             c.violation(&format!("{site}|write-err"), o.family, o.index, json!({"what": "write_graph returned Err on a well-formed diagram", "original": o.n.to_json(), "error": format!("{e}")}));
-            let _ = std::fs::remove_file(path);
+            if !reuse {
+                let _ = std::fs::remove_file(path);
+            }
             return;
         }
         Ok(Ok(())) => {}
@@ -625,7 +637,9 @@ fn roundtrip_file(o: &Orig, scramble: Option<u64>) {
             let _ = judge(o, site, "vec-file->hash", &text, &g2);
         }
     }
-    let _ = std::fs::remove_file(path);
+    if !reuse {
+        let _ = std::fs::remove_file(path);
+    }
 }
 
 fn roundtrip_serde(o: &Orig, scramble: Option<u64>) {
